@@ -1438,3 +1438,149 @@ def body_controls(xf: XForm) -> dict:
         if r is not None and XForm.local(e.tag) not in ("label", "hint", "value", "setvalue", "setgeopoint", "output"):
             out.setdefault(r, e)
     return out
+
+
+# --- helpers added for C11 (round 3)
+# Real spreadsheet containers with *layout noise*: columns whose header cell is empty (WB header None) that sit
+# between / before / after the used columns, possibly carrying private notes in the data rows.  `empties` says how
+# the empty cells of such header-less columns are stored in the file:
+#   "absent"  no cell record at all (the usual case: the reader pads the hole);
+#   "styled"  a formatted cell without a value (<c s=".."/> in .xlsx, a BLANK record in .xls);
+#   "blank"   a text cell holding the empty string.
+# With typed=True canonical integer texts ("7", "1234", "0") of the data rows are stored as numeric cells.
+# Nothing above this line was changed.
+
+
+def _c11_typed(c, typed):
+    if typed and isinstance(c, str) and re.fullmatch(r"-?\d{1,14}", c) and str(int(c)) == c:
+        return int(c)
+    return c
+
+
+def c11_wb_cells(wb: WB, typed=False, empties="absent"):
+    """[(sheet name, {(row, col): value})] of a WB; value None = formatted-but-empty cell; holes are left out."""
+    out = []
+    for name, (headers, rows) in wb.items():
+        cells = {}
+        for r, row in enumerate([list(headers), *rows]):
+            for c, v in enumerate(row):
+                if v is None or v == "":
+                    if c < len(headers) and headers[c] is None and empties != "absent":
+                        cells[(r, c)] = None if empties == "styled" else ""
+                    continue
+                cells[(r, c)] = _c11_typed(v, typed and r > 0)
+        out.append((name, cells))
+    return out
+
+
+def c11_wb_to_xlsx(wb: WB, typed=False, empties="absent") -> bytes:
+    """.xlsx / .xlsm bytes of a WB (openpyxl writer), header-less columns stored as described above."""
+    from openpyxl import Workbook
+    from openpyxl.styles import Font
+
+    book = Workbook()
+    book.remove(book.active)
+    for name, cells in c11_wb_cells(wb, typed, empties):
+        ws = book.create_sheet(title=name)
+        for (r, c), v in sorted(cells.items()):
+            cell = ws.cell(row=r + 1, column=c + 1)
+            if v is None:
+                cell.font = Font(italic=True)
+            else:
+                cell.value = v
+                if v == "":
+                    cell.data_type = "s"
+    buf = io.BytesIO()
+    book.save(buf)
+    return buf.getvalue()
+
+
+def _c11_rec(rid: int, data: bytes = b"") -> bytes:
+    import struct
+
+    return struct.pack("<HH", rid, len(data)) + data
+
+
+def _c11_ustr(text: str, lenfmt: str) -> bytes:
+    import struct
+
+    try:
+        raw, flag = text.encode("latin-1"), 0
+    except UnicodeEncodeError:
+        raw, flag = text.encode("utf-16-le"), 1
+    return struct.pack(lenfmt, len(text.encode("utf-16-le")) // 2) + bytes([flag]) + raw
+
+
+def _c11_ole2(stream_name: str, stream: bytes) -> bytes:
+    """A compound file (OLE2, version 3, 512-byte sectors) holding one stream in regular sectors."""
+    import struct
+
+    sect, free, end, fatsect = 512, 0xFFFFFFFF, 0xFFFFFFFE, 0xFFFFFFFD
+    size = (max(len(stream), 4096) + sect - 1) // sect * sect   # < 4096 bytes would have to go to the mini stream
+    stream = stream.ljust(size, b"\0")
+    n = size // sect
+    f = 1
+    while n + 1 + f > f * 128:
+        f += 1
+    if f > 109:
+        raise ValueError("workbook too large for this writer")
+    fat = [i + 1 for i in range(n)]
+    fat[n - 1] = end
+    fat.append(end)                                             # the directory sector (number n)
+    fat += [fatsect] * f
+    fat += [free] * (f * 128 - len(fat))
+
+    def dirent(name, typ, child, start, sz):
+        raw = (name.encode("utf-16-le") + b"\0\0") if name else b""
+        return (raw.ljust(64, b"\0") + struct.pack("<HBBIII", len(raw), typ, 1, free, free, child) + b"\0" * 16
+                + struct.pack("<I", 0) + b"\0" * 16 + struct.pack("<IQ", start, sz))
+
+    directory = (dirent("Root Entry", 5, 1, end, 0) + dirent(stream_name, 2, free, 0, size)
+                 + dirent("", 0, free, 0, 0) * 2)
+    header = (bytes.fromhex("D0CF11E0A1B11AE1") + b"\0" * 16 + struct.pack("<HHHHH", 0x3E, 3, 0xFFFE, 9, 6) + b"\0" * 6
+              + struct.pack("<IIIIIIIII", 0, f, n, 0, 4096, end, 0, end, 0)
+              + b"".join(struct.pack("<I", n + 1 + i if i < f else free) for i in range(109)))
+    return header + stream + directory + b"".join(struct.pack("<I", x) for x in fat)
+
+
+def c11_wb_to_xls(wb: WB, typed=False, empties="absent") -> bytes:
+    """.xls bytes of a WB: a BIFF8 'Workbook' stream (BOF, CODEPAGE, DATEMODE, BOUNDSHEET.., then per sheet BOF,
+    DIMENSIONS, LABEL / NUMBER / BOOLERR / BLANK cell records, EOF) in an OLE2 compound file.  No pyxform, no xlwt."""
+    import struct
+
+    sheets = c11_wb_cells(wb, typed, empties)
+    subs = []
+    for _name, cells in sheets:
+        body = _c11_rec(0x0809, struct.pack("<HHHHII", 0x0600, 0x0010, 0x0DBB, 0x07CC, 0, 6))
+        nr = max((r for r, _ in cells), default=-1) + 1
+        nc = max((c for _, c in cells), default=-1) + 1
+        if nr > 65536 or nc > 256:
+            raise ValueError("sheet too large for .xls")
+        body += _c11_rec(0x0200, struct.pack("<IIHHH", 0, nr, 0, nc, 0))
+        for (r, c) in sorted(cells):
+            v = cells[(r, c)]
+            if v is None:
+                body += _c11_rec(0x0201, struct.pack("<HHH", r, c, 0))
+            elif isinstance(v, bool):
+                body += _c11_rec(0x0205, struct.pack("<HHHBB", r, c, 0, int(v), 0))
+            elif isinstance(v, (int, float)):
+                body += _c11_rec(0x0203, struct.pack("<HHHd", r, c, 0, float(v)))
+            else:
+                s = _c11_ustr(str(v), "<H")
+                if len(s) > 8000:
+                    raise ValueError("cell text too long for a single LABEL record")
+                body += _c11_rec(0x0204, struct.pack("<HHH", r, c, 0) + s)
+        subs.append(body + _c11_rec(0x000A))
+
+    def book_globals(offsets):
+        g = _c11_rec(0x0809, struct.pack("<HHHHII", 0x0600, 0x0005, 0x0DBB, 0x07CC, 0, 6))
+        g += _c11_rec(0x0042, struct.pack("<H", 0x04B0)) + _c11_rec(0x0022, struct.pack("<H", 0))
+        for (name, _), off in zip(sheets, offsets):
+            g += _c11_rec(0x0085, struct.pack("<IBB", off, 0, 0) + _c11_ustr(str(name), "<B"))
+        return g + _c11_rec(0x000A)
+
+    offsets, pos = [], len(book_globals([0] * len(sheets)))
+    for b in subs:
+        offsets.append(pos)
+        pos += len(b)
+    return _c11_ole2("Workbook", book_globals(offsets) + b"".join(subs))
